@@ -6,7 +6,7 @@ Three exhaustive sub-spaces on the real pydsdl.BitLengthSet API against ref.bls:
       counts, for repeat / repeat_range; every leaf subset, alignment and divisor for pad_to_alignment (lcm step);
   (B) composition space: every operator tree up to the depth bound over a fixed leaf / count / alignment alphabet,
       every query (min, max, fixed_length, % d, is_aligned_at(d), is_aligned_at_byte, iteration, len), several
-      spellings of the same tree (+ / | / reflected operands / concatenate / unite);
+      spellings of the same tree (+ / | / reflected operands / concatenate / unite over lists and over one-shot iterators of raw operands);
   (C) query histories: every permutation of the query set on a fresh object per history (memoisation must be
       transparent, operands must never change).
 """
@@ -168,6 +168,12 @@ def build(t, spelling: int = 0) -> BitLengthSet:
         if spelling == 0:
             ch = [build(c, spelling) for c in t[1]]
             return BitLengthSet.concatenate(ch) if k == "cat" else BitLengthSet.unite(ch)
+        if spelling == 3:
+            # the n-ary constructors take any Iterable: a one-shot iterator whose leaves are raw python operands (ints first)
+            ops = [(c[1][0] if len(c[1]) == 1 else (set(c[1]) if i % 2 else list(c[1]))) if c[0] == "leaf" else build(c, 0) for i, c in enumerate(t[1])]
+            it = iter(ops) if len(ops) % 2 else (o for o in ops)
+            return BitLengthSet.concatenate(it) if k == "cat" else BitLengthSet.unite(it)
+
         # operator spellings; leaves are passed as raw python operands (reflected operators, int/set/list coercion)
         def operand(c, i):
             if c[0] == "leaf":
@@ -359,7 +365,7 @@ def check_tree(case, R):
     ds = case.get("ds") or divisors(tier, t)
     exp = reference_answers(t, ds)
     nontriv = has_op(t) and (any(len(exp["%%%d" % d]) >= 2 for d in ds) or any(max_count(t) >= d for d in ds))
-    spellings = [0] + ([1, 2] if t[0] in ("cat", "uni") else [])
+    spellings = [0] + ([1, 2, 3] if t[0] in ("cat", "uni") else [])
     for sp in spellings:
         b = build(t, sp)
         got = analytic_answers(b, ds)
